@@ -126,10 +126,15 @@ func switchToParentThread(L *LState, nargs int, haserror bool, kill bool) {
 		// its yield, or dead) and the values are dropped
 		L.reg.SetTop(L.reg.Top() - nargs)
 	}
-	L.stack.Pop()
-	offset := L.currentFrame.LocalBase - L.currentFrame.ReturnBase
-	L.currentFrame = L.stack.Last()
-	L.reg.SetTop(L.reg.Top() - offset) // remove 'yield' function(including tailcalled functions)
+	if !haserror {
+		L.stack.Pop()
+		offset := L.currentFrame.LocalBase - L.currentFrame.ReturnBase
+		L.currentFrame = L.stack.Last()
+		L.reg.SetTop(L.reg.Top() - offset) // remove 'yield' function(including tailcalled functions)
+	}
+	// a thread killed by an error keeps its frames and registers: the function that raised the
+	// error stays level 0 for debug.traceback(co) / getinfo(co, ..) / getlocal(co, ..) (ldo.c
+	// lua_resume leaves the stack of a dead coroutine as it is "so that it can be inspected")
 	if kill {
 		L.kill()
 	}
@@ -215,9 +220,7 @@ func threadRun(L *LState) {
 					L.reg.pushAlways(lv)
 					parent.Panic(L)
 				} else {
-					// SetTop(0) only goes down to the current frame's base, which can be the registry's limit
-					// (a Go function without arguments): the error value must not need room
-					L.SetTop(0)
+					// the error value must not need room (the thread may have died of a full registry)
 					L.reg.pushAlways(lv)
 					switchToParentThread(L, 1, true, true)
 				}
